@@ -536,6 +536,13 @@ func readGsub4_1(p *parser.Parser, subtablePos int64) (Subtable, error) {
 			if err != nil {
 				return nil, err
 			}
+			if componentCount == 0 {
+				// the count includes the first glyph
+				return nil, &parser.InvalidFontError{
+					SubSystem: "sfnt/opentype/gtab",
+					Reason:    "GSUB 4.1 ligature without components",
+				}
+			}
 			componentGlyphIDs := make([]glyph.ID, componentCount-1)
 			for k := range componentGlyphIDs {
 				gid, err := p.ReadUint16()
